@@ -108,6 +108,11 @@ def run(ck):
                 ops += ['R0:' + f, 'R1:' + f, 'A0:4:5:%d:%d:%d' % (gen.NG, gen.NG, gen.NG), 'A1:1:0:%d:%d:%d' % (gen.fbits(2.0), gen.NG, gen.NG), 'C0:1']
                 ops = ['F0', 'F1'] + ops[-5:] if rng.chance(1, 2) else ops[:-5] + ['F0', 'F1'] + ops[-5:]
             hists.append(ops)
+        # an input in which the header-only records outnumber the others (the bookkeeping arrays are sized by the record count)
+        me = os.path.join(tmp, 'mostly_empty.fa')
+        open(me, 'w').write('>e1\n\n>a\nACGTACGTAAGT\n>e2\n\n>e3\n\n>b\nACGTTCGTAAG\n>e4\n\n')
+        hists.append(['R0:' + me, 'A0:1:5:%d:%d:%d' % (gen.NG, gen.NG, gen.NG), 'W0:fasta:' + os.path.join(tmp, 'wme'), 'F0'])
+        hists.append(['R1:' + me, 'F1', 'R1:' + me + ',' + pool['dna'][0], 'A1:4:5:%d:%d:%d' % (gen.NG, gen.NG, gen.NG), 'F1'])
         # >= 100 sequences (bisecting k-means, its own allocations) and two writes to stdout in a row
         big = os.path.join(tmp, 'big.fa')
         hists.append(['R0:' + big, 'A0:4:5:%d:%d:%d' % (gen.NG, gen.NG, gen.NG), 'O0:clu:' + os.path.join(tmp, 'obig1'), 'O0:fasta:' + os.path.join(tmp, 'obig2'), 'F0'])
